@@ -486,7 +486,7 @@ impl Scenario for C04 {
             components_stubbed: &["TCP (SimNet)", "EPMD daemon (conforming stub)", "remote node (scripted handshake peer, independent MD5 formula and layouts)", "challenge source (seeded through hook H4)"],
             assumptions: &["EPMD itself conforms; it may answer late (the property is about the peer, so the time bound is counted from EPMD's answer)", "worst-case injected network delay per frame is kept below half the configured timeout, so a conforming peer is never legitimately timed out"],
             fault_prefixes: &["fault.", "net."],
-            expected_probes: &["probe.c04.connected", "probe.c04.refused_status", "probe.c04.bad_ack_rejected", "probe.c04.stale_ack_rejected", "probe.c04.timeout_on_silence", "probe.c04.reuse_after_close_connected", "probe.c04.delay_just_below_timeout_ok", "probe.c04.delay_above_timeout_err", "probe.c04.api_connected", "probe.c04.timeout_on_dripped_frame", "probe.c04.connected_after_slow_epmd", "probe.c04.configuration_built_another_way", "probe.c04.no_timeout_configured"],
+            expected_probes: &["probe.c04.connected", "probe.c04.refused_status", "probe.c04.bad_ack_rejected", "probe.c04.stale_ack_rejected", "probe.c04.timeout_on_silence", "probe.c04.reuse_after_close_connected", "probe.c04.delay_just_below_timeout_ok", "probe.c04.delay_above_timeout_err", "probe.c04.api_connected", "probe.c04.timeout_on_dripped_frame", "probe.c04.connected_after_slow_epmd", "probe.c04.configuration_built_another_way", "probe.c04.no_timeout_configured", "probe.c04.digest_of_an_unset_challenge_rejected"],
         }
     }
 }
@@ -1036,9 +1036,12 @@ fn api_history(w: &Arc<World>, p: &Plan) {
             }
             "ack" => {
                 // which digest does the "peer" present?
-                let kind = s.arg % 7;
+                let kind = s.arg % 8;
+                // what a challenge field holds before any challenge has been issued, in whatever way it is kept
+                let unset = [0u32, 0, u32::MAX, 1][(s.challenge % 4) as usize];
                 let digest: Option<[u8; 16]> = match kind {
-                    0 | 1 => latest_issued.map(|c| wire::digest(&p.cookie, c)),
+                    0 | 1 => Some(wire::digest(&p.cookie, latest_issued.unwrap_or(unset))),
+                    6 => Some(wire::digest(&p.cookie, unset)),
                     2 => {
                         // stale: a challenge issued earlier (before the latest, possibly before a disconnect)
                         let older: Vec<u32> = all_issued.iter().copied().filter(|c| Some(*c) != latest_issued).collect();
@@ -1067,6 +1070,9 @@ fn api_history(w: &Arc<World>, p: &Plan) {
                 if r.is_err() && is_proof {
                     // refusing a correct proof is not forbidden by C04; counted only
                     w.stat("c04.valid_input_rejected");
+                }
+                if r.is_err() && latest_issued.is_none() && matches!(kind, 0 | 1 | 6) {
+                    w.stat("probe.c04.digest_of_an_unset_challenge_rejected");
                 }
                 if r.is_ok() && is_proof {
                     proof = true;
